@@ -231,7 +231,7 @@ class Ctx:
         self.scale = scale
         self.shrink_calls = 4000 if tier == "quick" else 20000
         self.shrink_s = 60 if tier == "quick" else 240
-        self.eval_timeout = 120 if tier == "quick" else 300
+        self.eval_timeout = getattr(module, "EVAL_TIMEOUT", 120 if tier == "quick" else 300)
 
     # -- sizing
     def n(self, quick, thorough):
